@@ -92,6 +92,39 @@ def rt2(name, x, js, strict_only=False):
         if not same(y, x): return False
         if name == "DefaultDict" and y.default_factory is not None: return False
     return True
+import dataclasses
+@dataclasses.dataclass
+class Node:
+    v: int
+    left: Optional["Node"] = None
+    middle: Optional["Node"] = None
+    right: Optional["Node"] = None
+@dataclasses.dataclass
+class Tree:
+    v: int
+    children: List["Tree"] = dataclasses.field(default_factory=list)
+    spare: Optional["Tree"] = None
+    by_key: Dict[str, "Tree"] = dataclasses.field(default_factory=dict)
+REC_RS = six_retorts()
+REC = {(T_, k): (r.get_loader(T_), r.get_dumper(T_)) for T_ in (Node, Tree) for k, r in REC_RS.items()}
+def rec_value(sel, a, b, c):
+    if sel == 0: return Node(a)
+    if sel == 1: return Node(a, left=Node(b))
+    if sel == 2: return Node(a, middle=Node(b))
+    if sel == 3: return Node(a, right=Node(b, right=Node(c)))
+    if sel == 4: return Node(a, middle=Node(b, right=Node(c)))
+    if sel == 5: return Node(a, left=Node(b, middle=Node(c)), right=Node(c, left=Node(a)))
+    if sel == 6: return Tree(a, children=[Tree(b, children=[Tree(c)])], spare=Tree(c, spare=Tree(b)))
+    if sel == 7: return Tree(a, by_key={"k": Tree(b, by_key={"m": Tree(c, children=[Tree(a)])})})
+    return Tree(a, children=[Tree(b), Tree(c, spare=Tree(a, children=[Tree(b)]))])
+def rt_rec(sel, a, b, c):
+    x = rec_value(sel, a, b, c)
+    T_ = type(x)
+    for k in REC_RS:
+        ld, dp = REC[(T_, k)]
+        if ld(dp(x)) != x: return False
+    return True
+
 def sel_ints(n, c0, c1, c2):
     n = pick(n, 4)
     return [pick(c, 5) - 1 for c in (c0, c1, c2)[:n]]
@@ -212,6 +245,8 @@ def chk_{name}({args}):
           "t = None if (isnone and a > 0) else (Stub(a), None if isnone else Stub(a + 1))\n"
           "return rt2('ListList', v, False) and rt2('DictList', d, False) and rt2('OptTuple', t, False)",
           pre=["len(xs) <= 2"], timeout=tmo, family=fam2, bounds="depth-2 glue: List[List], Dict[str, List[Optional]], Optional[Tuple[., Optional]]")
+    m2.ob("rt_recursive", "sel: int, a: int, b: int, c: int", "return rt_rec(sel, a, b, c)", pre=["0 <= sel <= 8"], timeout=tmo,
+          family="recursive models with several self references (real loaders)", bounds="9 shapes nested up to 3 levels through first/second/third self-referencing field, list and dict of self; any int payloads; 6 modes")
     mods = [m, m2, ktd_module(tier)]
     names = ["plain", "rename", "nested", "nested2", "camel", "upper_kebab", "no_trim", "map_gt_style", "ellipsis", "ellipsis_style", "pairs_map",
              "stack_override", "stack_style", "forbid_nested", "rest_field", "rest_field_rename", "saturator", "omit_all", "omit_one", "omit_nested",
